@@ -30,7 +30,7 @@ type c12Case struct {
 }
 
 var c12APIs = []string{"snap", "json", "yaml", "ssnap", "sjson"}
-var c12OptSets = []string{"none", "ext", "filename", "dir", "update", "json", "all", "jsonnoindent"}
+var c12OptSets = []string{"none", "ext", "filename", "dir", "update", "json", "all", "jsonnoindent", "link"}
 
 func c12Opts(set, dir string) []func(*Config) {
 	o := []func(*Config){Dir(dir)}
@@ -41,6 +41,11 @@ func c12Opts(set, dir string) []func(*Config) {
 		o = append(o, Filename("cust"))
 	case "dir":
 		o = []func(*Config){Dir(filepath.Join(dir, "sub", "deep"))}
+	case "link":
+		// the snapshot directory is reached through a symbolic link and does not exist before the first call
+		os.MkdirAll(filepath.Join(dir, "real"), 0o755)
+		os.Symlink("real", filepath.Join(dir, "lnk"))
+		o = []func(*Config){Dir(filepath.Join(dir, "lnk", "pkg", "__snapshots__"))}
 	case "update":
 		o = append(o, Update(true))
 	case "updatefalse":
